@@ -86,7 +86,7 @@ PLANS = {
                    gen=[M(1, 1, 1, 0, 2, "block", 14, ["Inv_C16"]),
                         dict(M(2, 1, 1, 0, 3, "replace", 18, ["Inv_C16"], traces="client"), view=True)],
                    drv=["--scenarios", 200, "--directed", 2]),
-        thorough=dict(mc=[M(1, 1, 2, 0, 3, "block", 14, ["Inv_C16"]), M(2, 1, 1, 1, 3, "block", 16, ["Inv_C16"])],
+        thorough=dict(mc=[M(1, 1, 2, 0, 3, "block", 14, ["Inv_C16"]), M(2, 1, 1, 1, 2, "block", 16, ["Inv_C16"])],   # (budget 3 on both sides: > 10^8 states)
                       gen=[M(1, 1, 1, 0, 2, "block", 14, ["Inv_C16"]), M(1, 0, 2, 0, 2, "block", 14, ["Inv_C16"]),
                            dict(M(2, 1, 1, 0, 3, "replace", 18, ["Inv_C16"], traces="client"), view=True),
                            dict(M(2, 0, 1, 0, 4, "replace", 20, ["Inv_C16"], traces="client"), view=True)],
